@@ -1,8 +1,11 @@
 mod alloc;
+mod check;
+mod families;
 mod generate;
 mod oracles;
 mod pool;
 mod rng;
+mod scenarios;
 mod shrink;
 mod sim;
 mod steps;
@@ -34,6 +37,36 @@ fn main() {
             }
             for v in &s.violations {
                 println!("{} {} @{}: {}", v.prop, v.oracle, v.step, v.detail);
+            }
+        }
+        Some("check") => {
+            let prop = args[2].as_str();
+            let tier = args.get(3).map(|s| s.as_str()).unwrap_or("quick");
+            let code = match prop {
+                "C01" | "C02" | "C03" | "C04" | "C05" | "C06" | "C07" | "C08" | "C09" | "C10" | "C11" | "C12" | "C16" => {
+                    check::check_replication(prop, tier)
+                }
+                _ => {
+                    eprintln!("harness error: no check for {prop}");
+                    2
+                }
+            };
+            std::process::exit(code);
+        }
+        Some("worker") => {
+            let p = |i: usize| -> u64 { args[i].parse().unwrap() };
+            check::worker(&args[2], p(3), p(4), p(5), p(6));
+        }
+        Some("replay") => {
+            std::process::exit(check::replay(&args[2]));
+        }
+        Some("scenarios") => {
+            for sc in scenarios::all() {
+                let s = sim::Sim::run_opts(&sc.trace, false, !sc.symptom_oracles.is_empty());
+                println!("{}: harness_error={:?}", sc.id, s.harness_error);
+                for v in &s.violations {
+                    println!("    {} {} @{}: {}", v.prop, v.oracle, v.step, v.detail);
+                }
             }
         }
         Some("shrink") => {
